@@ -7,6 +7,7 @@ import (
 	"os"
 	"sort"
 	"strings"
+	"sync"
 	"testing"
 	"testing/synctest"
 	"time"
@@ -36,6 +37,7 @@ type execRec struct {
 }
 
 type recorder struct {
+	mu         sync.Mutex
 	execs      []execRec
 	running    map[scheduler.ID]int
 	overlap    string
@@ -45,32 +47,44 @@ type recorder struct {
 	slowAt     map[string]time.Duration
 }
 
+// (mu only matters in the free-running race pass: under the controlled scheduler one goroutine runs at a time.
+// It is never held across a scheduling point.)
 func (r *recorder) Execute(ctx context.Context, id scheduler.ID, scheduledFor time.Time, runAt time.Time) error {
+	r.mu.Lock()
 	r.running[id]++
 	if r.running[id] > 1 {
 		r.overlap = fmt.Sprintf("two concurrent executions of task %d (scheduledFor %v)", id, scheduledFor.Unix())
 	}
+	r.mu.Unlock()
 	rec := execRec{ID: id, ScheduledFor: scheduledFor.Unix(), RunAt: runAt.Unix(), Start: time.Now()}
 	vsched.Point() // executor latency: a scheduling point
-	if d, ok := r.slowAt[fmt.Sprintf("%d:%d", id, scheduledFor.Unix())]; ok {
+	k := fmt.Sprintf("%d:%d", id, scheduledFor.Unix())
+	r.mu.Lock()
+	d, slow := r.slowAt[k]
+	r.mu.Unlock()
+	if slow {
 		time.Sleep(d)
 		vsched.Point()
 	}
 	rec.End = time.Now()
+	r.mu.Lock()
 	r.execs = append(r.execs, rec)
 	r.running[id]--
-	k := fmt.Sprintf("%d:%d", id, scheduledFor.Unix())
-	if r.panicAt[k] {
+	pan, fail := r.panicAt[k], r.failAt[k]
+	r.mu.Unlock()
+	if pan {
 		panic("executor panic")
 	}
-	if r.failAt[k] {
+	if fail {
 		return errors.New("executor failure")
 	}
 	return nil
 }
 
 func (r *recorder) UpdateLastScheduled(ctx context.Context, id scheduler.ID, t time.Time) error {
+	r.mu.Lock()
 	r.checkpoint[id] = append(r.checkpoint[id], t.Unix())
+	r.mu.Unlock()
 	return nil
 }
 
@@ -328,6 +342,12 @@ func TestCheck(t *testing.T) {
 		"real TreeScheduler (instrumented package task/backend/scheduler) on the real clock path in virtual time: task 1 '@every 1s', task 2 '@every 2s' with offset 1s, 1 or 2 workers, a recording executor whose latency is a scheduling point (optionally failing or panicking once) and a recording checkpointer; actor A schedules and re-schedules task 1, actor B schedules and releases task 2, Stop after 5.5s; all interleavings of actors, main loop, workers and timer firings up to the deviation bound. Oracle per schedule: executed occurrences are consecutive occurrences after the last-scheduled time, each once, increasing, never before occurrence+offset, never concurrent per task, none due after Release returned, checkpoints monotone, every call returns, no deadlock/livelock verdict")
 	defer r.Write()
 	r.Assumption("the mock clock of the upstream tests is not used: the scheduler runs on clock.New(), which is virtual time inside the bubble")
+	if n := vsched.FreeRuns(); n > 0 {
+		for _, sc := range scenarios() {
+			r.Add("race_pass_runs", int64(vsched.FreeRun(t, harness(sc), n)))
+		}
+		return
+	}
 	if rep.ReplayPath() != "" {
 		var rp Replay
 		if err := rep.LoadReplay(&rp); err != nil {
